@@ -20,14 +20,23 @@ description with hashlib; (b) for every pair of trees of a case: equal results <
 under the property's notion (names, file bytes, resolved in-directory symlink targets,
 subdirectories); (c) same result for both creations of a tree and for the directory edited in
 place into that tree; (d) a symlink leading outside is rejected with ValueError; (e) hashsum/qualified_hashsum/file_hashsum == hashlib for every
-accepted algorithm, from bytes, from streams and from streams that return short reads.
+accepted algorithm, from bytes, from streams and from streams that return short reads: "streams" cases
+run hashsum/qualified_hashsum on binary streams that hand out fewer bytes than asked for before their
+end — a plain object with `read`, io.RawIOBase subclasses (over memory and over an unbuffered file), a
+BufferedReader over such a raw stream, the unbuffered read end of an os.pipe and of a socket pair that a
+thread fills piece by piece — with per-read transfer limits 1, 7, 63, 64, 65, 128, 1000, block size - 1,
+REQUEST SIZE - 1 (constant, "some full reads then a short one", random) and total sizes below, at and above
+the limit / the block size / the request size. The request size is OBSERVED on the code under test (what
+its read loop asks a recording stream for), not assumed.
 
 Correspondence: rendered nested dict / error class vs. the Lean model `dirHashsums` run on the
 same tree (entries + digests as a table; enumeration order given and reversed); chunk lengths
-of the read loop and `qualified_hashsum` vs. `chunks` / `qualifiedHashsum`.
+of the read loop and `qualified_hashsum` vs. `chunks` / `qualifiedHashsum`; result of `qualified_hashsum`
+on a short-read stream vs. `qualifiedHashsumS` (Model/ByteStreams.lean) under the same delivery schedule.
 """
 import copy
 import hashlib
+import io
 import posixpath
 
 from .. import core, lean
@@ -40,6 +49,7 @@ LEAN = dict(
     theorems=[T + n for n in [
         "order_independent", "hashsums_injective", "file_entry_format", "entries_exact",
         "chunking_independent", "hashsum_is_standard_digest", "outside_symlink_rejected", "rejected_of_bad_entry",
+        "short_reads_independent",
         "unsupported_alg_rejected", "legacy_symlink_to_file_confused", "legacy_outside_file_symlink_accepted"]]
     # generated-from-source definitions (Gen/HashsumsFns.lean) = the model the theorems above are about
     + ["MetadorModel.Bridge.HashsumsFns." + n for n in [
@@ -323,9 +333,10 @@ class _Rec:
     """binary stream that records the sizes asked for / lengths returned"""
 
     def __init__(self, data, short=None):
-        self.data, self.pos, self.log, self.short = data, 0, [], short
+        self.data, self.pos, self.log, self.short, self.asked = data, 0, [], short, []
 
     def read(self, n=-1):
+        self.asked.append(n)
         if n is None or n < 0:
             n = len(self.data) - self.pos
         if self.short is not None and n > 1:
@@ -334,6 +345,235 @@ class _Rec:
         self.pos += len(c)
         self.log.append(len(c))
         return c
+
+
+# ----------------------------------------------------------------------------- streams with short reads
+# A stream = the bytes it holds + a delivery schedule `caps` (cyclic list of positive numbers): the i-th
+# read(n) hands out at most caps[i % len(caps)] bytes. BIG = "as many as asked for".
+BIG = 1 << 30
+STREAM_CLASSES = ["duck", "raw", "rawfile", "buffered", "pipe", "socket"]
+MAX_PIECES = 2000      # pipe / socket: pieces written by the feeding thread per stream
+MAX_READS = 400000     # in-memory streams: reads per stream (limits are raised to stay below)
+
+
+class _Sched:
+    """plain object with `read` (a wrapper with a small transfer size)"""
+
+    def __init__(self, data, caps):
+        self.data, self.pos, self.caps, self.i, self.log = data, 0, caps, 0, []
+
+    def _take(self, n):
+        k = self.caps[self.i % len(self.caps)]
+        self.i += 1
+        if n is None or n < 0:
+            n = len(self.data) - self.pos
+        c = self.data[self.pos:self.pos + min(n, k)]
+        self.pos += len(c)
+        self.log.append(len(c))
+        return c
+
+    def read(self, n=-1):
+        return self._take(n)
+
+
+class _RawSched(io.RawIOBase):
+    """raw binary stream (io.RawIOBase: read/readall/readinto … derived from readinto) over bytes or over
+    an unbuffered file, transferring at most caps[i] bytes at its i-th readinto"""
+
+    def __init__(self, data, caps, fileobj=None):
+        super().__init__()
+        self._s = _Sched(data, caps)
+        self._f = fileobj
+
+    def readable(self):
+        return True
+
+    def readinto(self, b):
+        if self._f is None:
+            c = self._s._take(len(b))
+        else:
+            k = self._s.caps[self._s.i % len(self._s.caps)]
+            self._s.i += 1
+            c = self._f.read(min(len(b), k))
+            self._s.log.append(len(c))
+        b[:len(c)] = c
+        return len(c)
+
+    def close(self):
+        if self._f is not None:
+            self._f.close()
+        super().close()
+
+
+def _feeder(write, rfd, data, caps, stop, closer):
+    """writes `data` piece by piece; the next piece only after the reader has taken the previous one
+    completely (FIONREAD == 0), so that every read of the other end returns at most one piece"""
+    import fcntl
+    import struct
+    import termios
+    import time
+    try:
+        pos = i = 0
+        while pos < len(data) and not stop.is_set():
+            k = min(caps[i % len(caps)], 65536)
+            i += 1
+            write(data[pos:pos + k])
+            pos += k
+            n = 0
+            while not stop.is_set():
+                if struct.unpack("i", fcntl.ioctl(rfd, termios.FIONREAD, b"\0\0\0\0"))[0] == 0:
+                    break
+                n += 1
+                time.sleep(0 if n < 200 else 0.0005)
+    except OSError:
+        pass  # reader gave up early
+    finally:
+        closer()
+
+
+def _open_stream(cls, data, caps, tmpdir, idx):
+    """-> (stream to hand to the code under test, finish())"""
+    import os
+    import threading
+    if cls == "duck":
+        return _Sched(data, caps), (lambda: None)
+    if cls == "raw":
+        s = _RawSched(data, caps)
+        return s, s.close
+    if cls == "rawfile":
+        fp = os.path.join(tmpdir, "s%d" % idx)
+        with open(fp, "wb") as f:
+            f.write(data)
+        s = _RawSched(data, caps, open(fp, "rb", buffering=0))
+        return s, s.close
+    if cls == "buffered":
+        s = io.BufferedReader(_RawSched(data, caps), buffer_size=max(1, min(min(caps), 8192)))
+        return s, s.close
+    stop = threading.Event()
+    if cls == "pipe":
+        r, w = os.pipe()
+        stream = os.fdopen(r, "rb", buffering=0)
+        args = (lambda b: os.write(w, b), r, data, caps, stop, lambda: os.close(w))
+        extra = None
+    else:
+        import socket
+        a, b = socket.socketpair()
+        stream = a.makefile("rb", buffering=0)
+
+        def closer():
+            try:
+                b.shutdown(socket.SHUT_WR)
+            except OSError:
+                pass
+            b.close()
+        args = (b.sendall, a.fileno(), data, caps, stop, closer)
+        extra = a
+    t = threading.Thread(target=_feeder, args=args, daemon=True)
+    t.start()
+
+    def finish():
+        stop.set()
+        t.join(5)
+        stream.close()
+        if extra is not None:
+            extra.close()
+    return stream, finish
+
+
+def _resolve(spec, req):
+    a, b = spec
+    if a and not req:
+        return None
+    return a * (req or 0) + b
+
+
+def _item_data(seed, idx, size):
+    import random
+    return random.Random(seed * 4099 + idx).randbytes(size)
+
+
+def stream_items(case, req):
+    """[(idx, cls, caps, size, adaptive)] with the [a, b] = a * request size + b specs resolved"""
+    out = []
+    for idx, (cls, capspecs, sizespec) in enumerate(case["items"]):
+        caps = [_resolve(c, req) for c in capspecs]
+        size = _resolve(sizespec, req)
+        if size is None or size < 0 or size > (1 << 26) or any(c is None or c < 1 for c in caps) or not caps:
+            continue
+        adaptive = bool(sizespec[0] or any(c[0] for c in capspecs))
+        out.append((idx, cls, caps, size, adaptive))
+    return out
+
+
+def _impl_streams(case):
+    import os
+    import shutil
+    import tempfile
+
+    from metador_core.util import hashsums as hs
+
+    alg = case["alg"]
+    out, oracle, tags = [], [], set()
+    # what does the read loop ask for? (observed, not assumed)
+    probe = _Rec(bytes(1000))
+    try:
+        hs.hashsum(probe, alg)
+    except Exception:  # noqa: BLE001
+        pass
+    asked = [n for n in probe.asked if isinstance(n, int) and n > 0]
+    req = max(asked) if asked else None
+    tags.add("request-size-observed" if req else "request-size-unknown")
+    ref = req or ALGS[alg]
+    top = tempfile.mkdtemp(prefix="vtc19-")
+    try:
+        for idx, cls, caps, size, adaptive in stream_items(case, req):
+            data = _item_data(case.get("seed", 0), idx, size)
+            lim = MAX_PIECES if cls in ("pipe", "socket") else MAX_READS
+            if size // min(caps) > lim:
+                lo = -(-size // lim)
+                caps = [max(c, lo) for c in caps]
+            want = alg + ":" + hashlib.new(alg, data).hexdigest()
+            try:
+                stream, finish = _open_stream(cls, data, caps, top, idx)
+            except OSError as e:   # no pipes / sockets in this sandbox: not the code under test
+                tags.add("stream-class-unavailable:" + cls)
+                if not adaptive:
+                    out.append("ok " + hx(want))
+                continue
+            try:
+                try:
+                    res = ("ok", hs.qualified_hashsum(stream, alg))
+                except Exception as e:  # noqa: BLE001
+                    res = ("err", type(e).__name__)
+            finally:
+                finish()
+            if not adaptive:
+                out.append("ok " + hx(res[1]) if res[0] == "ok" else "err " + res[1])
+            if res != ("ok", want):
+                d = dict(kind="digest-differs-from-hashlib", via="stream/" + cls, alg=alg, size=size, max_bytes_per_read=caps[:8],
+                         request_size=req, got=res[1], want=want, item=[cls, [[0, c] for c in caps], [0, size]])
+                pos = 0
+                for i in range(min(size, 4096)):
+                    pos += min(caps[i % len(caps)], ref)
+                    if pos >= size:
+                        break
+                    if res[1] == alg + ":" + hashlib.new(alg, data[:pos]).hexdigest():
+                        d["equals"] = "digest of the first %d of %d bytes (what the first %d reads deliver)" % (pos, size, i + 1)
+                        break
+                oracle.append(d)
+            tags.add("stream:" + cls)
+            k = min(caps)
+            if k < ref and size > k:
+                tags.add("short-read-before-end")
+                tags.add("short-read:%s" % ("1-byte" if k == 1 else "request-1" if k == ref - 1 else "other"))
+                tags.add("stream-size-%s-request" % ("below" if size < ref else "at" if size == ref else "above"))
+                if len(set(caps)) > 1:
+                    tags.add("short-read:mixed-with-full-reads" if max(caps) >= ref else "short-read:varying")
+            if adaptive:
+                tags.add("sizes-relative-to-observed-request-size")
+    finally:
+        shutil.rmtree(top, ignore_errors=True)
+    return dict(out=out, oracle=oracle, tags=sorted(tags))
 
 
 def _scratch(case):
@@ -358,6 +598,8 @@ def impl(case):
 
     out, oracle, tags = [], [], set()
     kind = case["kind"]
+    if kind == "streams":
+        return _impl_streams(case)
     if kind == "hash":
         alg = case["alg"]
         top = tempfile.mkdtemp(prefix="vtc19-", dir=_scratch(case))
@@ -619,6 +861,13 @@ def lines(case):
             bs = bytes.fromhex(h)
             L.append("chunks %d %s" % (ALGS.get(alg, 64), h or "-"))
             L.append("hashsum %s %s" % (h or "-", hashlib.new(alg, bs).hexdigest() if alg in ALGS else "0"))
+        return L
+    if case["kind"] == "streams":
+        alg = case["alg"]
+        L.append("alg %s %d" % (hx(alg), ALGS[alg]))
+        for idx, cls, caps, size, adaptive in stream_items(case, None):   # items with absolute sizes only
+            bs = _item_data(case.get("seed", 0), idx, size)
+            L.append("shashsum %s %s %s" % (",".join(str(c) for c in caps), bs.hex() or "-", hashlib.new(alg, bs).hexdigest()))
         return L
     for w in case["worlds"]:
         L += tree_lines(w, case["alg"]) + ["build", "rbuild", "build"]   # two fresh creations, one directory edited in place
@@ -904,6 +1153,54 @@ def gen_cases(ctx, scale=1.0):
         cases.append(dict(kind="hash", alg=alg, data=[rbytes(rng, n).hex() for n in sizes]))
     for alg in ["md5", "sha1", "SHA256", "", "sha-256", "symlink", "sha3_256"]:
         cases.append(dict(kind="hash", alg=alg, data=["", "00", "61" * 70]))
+    cases += gen_stream_cases(rng, int((24 if ctx.quick else 200) * scale))
+    return cases
+
+
+CAPS = [1, 7, 63, 64, 65, 128, 1000]
+
+
+def gen_stream_cases(rng, n_random):
+    """streams that deliver short reads. Specs are [a, b] = a * (observed request size of the read loop) + b.
+    First a covering family (every stream class x every transfer limit of CAPS, block size - 1 and request
+    size - 1 x total sizes below / at / above the limit and the request size), then random mixtures."""
+    cases = []
+    for alg, b in sorted(ALGS.items()):
+        for cls in STREAM_CLASSES:
+            items = []
+            for cap in [[0, k] for k in CAPS] + [[0, b - 1], [1, -1]]:
+                k = cap[1] if not cap[0] else None
+                sizes = [[0, 0], [0, 1], [0, 3000], [1, -1], [1, 0], [1, 1], [2, 1]]
+                if k is not None:
+                    sizes += [[0, k], [0, k + 1], [0, 2 * k + 1]]
+                else:
+                    sizes += [[1, -2], [2, -2], [3, -1]]
+                for sz in sizes:
+                    items.append([cls, [cap], sz])
+            cases.append(dict(kind="streams", alg=alg, seed=rng.randrange(1 << 30), items=items))
+    for _ in range(n_random):
+        alg = rng.choice(["sha256", "sha256", "sha512"])
+        b = ALGS[alg]
+        items = []
+        for _ in range(30):
+            cls = rng.choice(STREAM_CLASSES)
+            k = rng.choice(CAPS + [b - 1, b + 1, 2, 3, rng.randrange(1, 300)])
+            cap = rng.choice([[0, k], [0, k], [1, -1], [1, -k]]) if k < b else [0, k]
+            r = rng.random()
+            if r < 0.4:
+                caps = [cap]
+            elif r < 0.6:
+                caps = [[0, BIG]] * rng.randrange(1, 4) + [cap]                 # some full reads, then a short one
+            elif r < 0.7:
+                caps = [cap] + [[0, BIG]] * rng.randrange(1, 3)
+            else:
+                caps = [[0, rng.randrange(1, k + 1)] for _ in range(rng.randrange(2, 7))]   # varying
+            sz = rng.choice([[0, rng.choice(SIZES)], [0, rng.choice([k, k + 1, 2 * k, 3 * k + 1])], [0, rng.randrange(0, 5000)],
+                             [1, rng.choice([-1, 0, 1])], [2, rng.choice([-1, 0, 1])], [rng.randrange(1, 4), rng.randrange(0, 200)]])
+            if cls in ("pipe", "socket") and not sz[0]:
+                sz = [0, min(sz[1], 600 * min(c[1] if not c[0] else b for c in caps))]
+            items.append([cls, caps, sz])
+        cases.append(dict(kind="streams", alg=alg, seed=rng.randrange(1 << 30), items=items))
     return cases
 
 
@@ -940,16 +1237,23 @@ def run(ctx):
                 "are compared. Outside symlinks lead to the parent, above it, and to sibling entries of the hashed directory incl. names that extend or are "
                 "prefixes of its name. (hash) byte strings of "
                 "boundary sizes through hashsum/qualified_hashsum/file_hashsum incl. streams with short reads and files overwritten in place between two "
-                "calls, for sha256, sha512 and unsupported names. "
+                "calls, for sha256, sha512 and unsupported names. (streams) qualified_hashsum on binary streams that deliver fewer bytes than asked for "
+                "before their end: object with read, io.RawIOBase subclasses over memory / an unbuffered file, BufferedReader over one, unbuffered read end "
+                "of an os.pipe and of a socket pair filled piece by piece; per-read limits 1, 7, 63, 64, 65, 128, 1000, block size - 1, request size - 1 "
+                "(constant, full reads followed by a short one, varying), total sizes below / at / above limit, block size and request size; the request "
+                "size is observed on the code under test. "
                 "Non-trivial = carries a tag: symlink kinds, chains, empty dir/file, file larger than a block, outside symlink (by kind of target), odd names, "
-                "edit kinds, in-place timestamp mode.")
+                "edit kinds, in-place timestamp mode, stream class, short read before the end (1 byte / request size - 1 / other; size below / at / above the request size).")
     ctx.assumptions += [
         "hashlib: update(a); update(b) == update(a+b) (hypothesis `Streaming` of chunking_independent / hashsum_is_standard_digest)",
         "no SHA collision among the file contents of the two directories compared (hypothesis `NoCollision` of hashsums_injective)",
         "Path.rglob('*') (Python >= 3.11) yields every entry below the directory once, does not descend into symlinked directories "
         "(hypothesis FsTree.WF; re-checked on every generated tree by comparing with the tree description)",
         "symlink targets are compared after resolution (`Path.resolve`), i.e. `l -> m -> f` and `l -> f` count as the same in-directory target",
-        "special files (fifos, sockets, devices) and symlink loops are outside the property's domain",
+        "special files (fifos, sockets, devices) and symlink loops are outside the property's domain (as directory ENTRIES; pipes and sockets as "
+        "the stream argument of hashsum are covered)",
+        "a binary stream delivers at least one byte per read while bytes are left and b'' only at its end (blocking streams; hypothesis "
+        "`0 < cap i` of short_reads_independent); non-blocking streams whose read returns None are outside the domain",
     ]
     ctx.assumptions.append("trees are created below /dev/shm (tmpfs) when it is writable, every 16th case and all single-file cases below the default temp dir")
     ctx.trusted.append("harness-side pure resolver of symlinks (harness/props/c19.py resolve), self-checked against os.path.realpath on every tree")
@@ -992,7 +1296,48 @@ def _shrink_hash(case, detail):
     return case, detail
 
 
+def _shrink_streams(case, detail):
+    """streams cases: one stream (class, transfer limits, size — all absolute) that still shows the
+    violation; simplest class, constant limit, smallest size tried"""
+    want = detail.get("kind")
+
+    def hits(item):
+        cand = dict(case, items=[item])
+        ds = [d for d in _oracle_kinds(cand) if d.get("kind") == want]
+        return (cand, ds[0]) if ds else None
+
+    item = detail.get("item")
+    best = hits(item) if item else None
+    if not best:
+        return case, detail
+    cls, caps, size = item
+    simpler = ["duck", "raw"]
+    for c2 in simpler[:simpler.index(cls)] if cls in simpler else simpler:
+        r = hits([c2, caps, size])
+        if r:
+            best, cls = r, c2
+            break
+    for caps2 in ([[0, min(c[1] for c in caps)]], [[0, 1]]):
+        if caps2 != caps:
+            r = hits([cls, caps2, size])
+            if r:
+                best, caps = r, caps2
+    k = min(c[1] for c in caps)
+    for s2 in sorted(set([1, 2, 3, k, k + 1, 2 * k, 2 * k + 1, size[1] // 2, size[1] - 1])):
+        if 0 <= s2 < size[1]:
+            r = hits([cls, caps, [0, s2]])
+            if r:
+                best = r
+                break
+    return best
+
+
 def shrink(ctx, case, detail):
+    if case.get("kind") == "streams" and isinstance(detail, dict):
+        key = ("streams", detail.get("kind"))
+        if key not in _shrunk:
+            _shrunk[key] = _shrink_streams(case, detail)
+        return _shrunk[key]
     if case.get("kind") == "hash" and isinstance(detail, dict):
         key = ("hash", detail.get("kind"), detail.get("via"))
         if key not in _shrunk:
